@@ -21,7 +21,7 @@ use std::sync::Arc;
 use std::time::Duration;
 
 /// (name, class) universe; index = zone id
-const UNIVERSE: &[(&str, u16)] = &[("a.", 1), ("b.a.", 1), ("c.b.a.", 1), ("x.", 1), ("a.", 3)];
+pub(crate) const UNIVERSE: &[(&str, u16)] = &[("a.", 1), ("b.a.", 1), ("c.b.a.", 1), ("x.", 1), ("a.", 3)];
 const PATHS: usize = 2; // each zone has two candidate paths
 
 #[derive(Clone, Debug, Serialize, Deserialize, PartialEq)]
@@ -45,6 +45,16 @@ pub enum FileKind {
     WarningOnly(u32),
     /// a fatal validation error (no apex NS) together with a warning: must not load
     ErrorAndWarning,
+    /// a valid main file of this version that `$INCLUDE`s the include file next to it; the
+    /// include file holds the marker record (and relies on the includer's origin and TTL)
+    WithInclude(u32),
+    /// edits of the *include file* next to this zone file (the main file is not touched):
+    /// valid with this marker version / syntactically broken / removed
+    IncValid(u32),
+    IncBroken,
+    IncMissing,
+    /// the I/O error on this file goes away (transient fault): content and mtime stay as they are
+    EioCleared,
 }
 #[derive(Clone, Debug, Serialize, Deserialize)]
 pub struct Edit {
@@ -72,17 +82,31 @@ pub struct Scn {
     pub concurrent_queries: usize,
     #[serde(default)]
     pub strategy: String,
+    /// 0 = the SIGHUP handler body is called directly (E3); 1 = the whole daemon (`try_running`)
+    /// runs as a simulated thread with a configuration file; 2 = the same with the zones given
+    /// on the command line (fixed set of zones, class IN)
+    #[serde(default)]
+    pub daemon: u8,
+    /// `[io]` table of the daemon's configuration: (tcp_base_workers, tcp_worker_linger s, udp_workers_per_socket)
+    #[serde(default)]
+    pub daemon_io: Option<(usize, u64, usize)>,
+    /// SIGHUP is raised twice in a row (the deliveries may coalesce)
+    #[serde(default)]
+    pub double_hup: bool,
+    /// the daemon is stopped with SIGINT instead of SIGTERM
+    #[serde(default)]
+    pub term_sigint: bool,
 }
 pub struct C31;
 
-fn path_of(zone: usize, variant: usize) -> String {
+pub(crate) fn path_of(zone: usize, variant: usize) -> String {
     if variant == 0 {
         format!("/etc/quandary/z{zone}.zone")
     } else {
         format!("/etc/quandary/alt/z{zone}.zone")
     }
 }
-fn rel_path_of(zone: usize, variant: usize) -> String {
+pub(crate) fn rel_path_of(zone: usize, variant: usize) -> String {
     // relative paths are resolved against the configuration file's directory; some zones are
     // configured with an absolute path instead
     if (zone + variant) % 3 == 2 {
@@ -94,14 +118,21 @@ fn rel_path_of(zone: usize, variant: usize) -> String {
         format!("alt/z{zone}.zone")
     }
 }
-fn class_str(c: u16) -> &'static str {
+pub(crate) fn inc_path_of(zone: usize, variant: usize) -> String {
+    if variant == 0 {
+        format!("/etc/quandary/z{zone}.inc")
+    } else {
+        format!("/etc/quandary/alt/z{zone}.inc")
+    }
+}
+pub(crate) fn class_str(c: u16) -> &'static str {
     if c == 3 {
         "CH"
     } else {
         "IN"
     }
 }
-fn zone_text(zone: usize, kind: &FileKind) -> Option<Vec<u8>> {
+pub(crate) fn zone_text(zone: usize, kind: &FileKind) -> Option<Vec<u8>> {
     let (name, class) = UNIVERSE[zone];
     let c = class_str(class);
     let soa = |v: u32| format!("@ {c} SOA ns.elsewhere. h.elsewhere. {v} 60 60 60 60\n");
@@ -125,29 +156,46 @@ fn zone_text(zone: usize, kind: &FileKind) -> Option<Vec<u8>> {
             FileKind::NoSoa => format!("{head}{ns}{}", marker(9)),
             FileKind::NoNs => format!("{head}{}{}", soa(9), marker(9)),
             FileKind::OutOfZone => format!("{head}{}{ns}{}outside.elsewhere. {c} TXT \"x\"\n", soa(9), marker(9)),
-            FileKind::Missing | FileKind::Dir => return None,
+            // relative include path: resolved against the including file's directory
+            FileKind::WithInclude(v) => format!("{head}{}{ns}$INCLUDE z{zone}.inc\n", soa(*v)),
+            FileKind::IncValid(iv) => marker(*iv),
+            FileKind::IncBroken => format!("marker {c} TXT (\n"),
+            FileKind::Missing | FileKind::Dir | FileKind::IncMissing | FileKind::EioCleared => return None,
         }
         .into_bytes(),
     )
 }
 
-/// Whether the file content loads and validates, by construction.
-fn loads(kind: &FileKind) -> Option<u32> {
+/// Whether the zone file loads and validates, by construction: (version, marker version).
+/// `inc` is the state of the include file next to it (`Some(Some(v))` valid, `Some(None)` broken,
+/// `None` absent).
+fn loads(kind: &FileKind, inc: Option<&Option<u32>>) -> Option<(u32, u32)> {
     match kind {
-        FileKind::Valid(v) | FileKind::WarningOnly(v) => Some(*v),
+        FileKind::Valid(v) | FileKind::WarningOnly(v) => Some((*v, *v)),
+        FileKind::WithInclude(v) => match inc {
+            Some(Some(iv)) => Some((*v, *iv)),
+            _ => None,
+        },
         _ => None,
     }
 }
 
+/// Harness-side record of what is on the simulated disk.
+#[derive(Clone, Debug, Default)]
+pub(crate) struct Files {
+    pub main: BTreeMap<(usize, usize), FileState>,
+    pub inc: BTreeMap<(usize, usize), Option<u32>>,
+}
+
 #[derive(Clone, Debug, PartialEq)]
-enum Served {
-    Data { version: u32, path: usize, mtime_s: u64 },
+pub(crate) enum Served {
+    Data { version: u32, marker: u32, path: usize, mtime_s: u64 },
     ServFail,
 }
 #[derive(Clone, Debug)]
-struct FileState {
-    kind: FileKind,
-    mtime_s: u64,
+pub(crate) struct FileState {
+    pub kind: FileKind,
+    pub mtime_s: u64,
 }
 
 impl Prop for C31 {
@@ -164,6 +212,8 @@ impl Prop for C31 {
         let mut steps = vec![];
         let mut cur: Vec<(usize, usize)> = vec![];
         let mut version = 0u32;
+        let mut with_inc: Vec<(usize, usize)> = vec![];
+        let mut eio: Vec<(usize, usize)> = vec![];
         for si in 0..nsteps {
             // configuration change
             let mut zones = cur.clone();
@@ -205,7 +255,7 @@ impl Prop for C31 {
             for _ in 0..nedits {
                 let (zone, path) = if !zones.is_empty() && chance(r, 85) { *pick(r, &zones) } else { (r.below(UNIVERSE.len() as u64) as usize, r.below(PATHS as u64) as usize) };
                 version += 1;
-                let kind = match r.below(18) {
+                let mut kind = match r.below(24) {
                     16 => FileKind::WarningOnly(version),
                     17 => FileKind::ErrorAndWarning,
                     0..=7 => FileKind::Valid(version),
@@ -216,8 +266,35 @@ impl Prop for C31 {
                     12 => FileKind::Missing,
                     13 => FileKind::Dir,
                     14 => FileKind::Eio(version, range(r, 0, 100) as usize),
-                    _ => FileKind::Torn(version, range(r, 0, 100) as usize),
+                    15 => FileKind::Torn(version, range(r, 0, 100) as usize),
+                    18 | 19 => FileKind::WithInclude(version),
+                    20 | 21 => FileKind::IncValid(version),
+                    22 => if chance(r, 50) { FileKind::IncBroken } else { FileKind::IncMissing },
+                    _ => FileKind::EioCleared,
                 };
+                // include edits and cleared I/O errors go where they matter, when there is such a place
+                let (mut zone, mut path) = (zone, path);
+                match kind {
+                    FileKind::IncValid(_) | FileKind::IncBroken | FileKind::IncMissing => {
+                        if !with_inc.is_empty() {
+                            (zone, path) = *pick(r, &with_inc);
+                        }
+                    }
+                    FileKind::EioCleared => {
+                        if let Some(zp) = eio.pop() {
+                            (zone, path) = zp;
+                        } else {
+                            kind = FileKind::Valid(version);
+                        }
+                    }
+                    FileKind::WithInclude(_) => with_inc.push((zone, path)),
+                    FileKind::Eio(..) => eio.push((zone, path)),
+                    _ => {}
+                }
+                if !matches!(kind, FileKind::Eio(..) | FileKind::IncValid(_) | FileKind::IncBroken | FileKind::IncMissing | FileKind::EioCleared) {
+                    // the main file was replaced: a pending I/O error on it is gone with it
+                    eio.retain(|zp| *zp != (zone, path));
+                }
                 edits.push(Edit { zone, path, kind });
             }
             steps.push(Step { zones: zones.clone(), edits, config_fault: if si > 0 && chance(r, 10) { range(r, 1, 3) as u8 } else { 0 }, advance_s: range(r, 1, 3) });
@@ -233,14 +310,41 @@ impl Prop for C31 {
         // I/O error instead of retrying (observed; see DESIGN.md), which legitimately makes a load
         // fail and would only blur the per-zone expectation. C24 exercises EINTR on the parser.
         let concurrent_queries = if chance(r, 25) { range(r, 1, 3) as usize } else { 0 };
-        Scn { steps, fs_faults, concurrent_queries, strategy: pick(r, &["random", "random", "pct:2", "pct:3"]).to_string() }
+        let strategy = pick(r, &["random", "random", "pct:2", "pct:3"]).to_string();
+        // whole-daemon mode in a sixth of the runs (it is about 30 times more expensive per run)
+        let daemon = if chance(r, 17) { if chance(r, 25) { 2 } else { 1 } } else { 0 };
+        let mut daemon_io = None;
+        let (mut double_hup, mut term_sigint) = (false, false);
+        if daemon != 0 {
+            if chance(r, 60) {
+                daemon_io = Some((r.below(3) as usize, *pick(r, &[0u64, 1, 15]), range(r, 1, 3) as usize));
+            }
+            double_hup = chance(r, 20);
+            term_sigint = chance(r, 30);
+            for (k, rate) in [("udp_loss", 30), ("udp_dup", 50), ("udp_delay", 100), ("udp_reorder", 100), ("eintr_udp_recv", 50), ("eintr_udp_send", 50), ("udp_send_error", 30), ("spurious_wakeup", 20), ("eintr_poll", 50)] {
+                if chance(r, 25) {
+                    fs_faults.push((k.to_string(), rate));
+                }
+            }
+        }
+        Scn { steps, fs_faults, concurrent_queries, strategy, daemon, daemon_io, double_hup, term_sigint }
     }
     fn plan(r: &mut SplitMix, s: &Scn) -> ExecPlan {
-        let strategy = if s.concurrent_queries > 0 { crate::parse_strategy(&s.strategy, 300) } else { Strategy::Random };
-        ExecPlan { seed: r.next(), strategy, clock: ClockPolicy::Des, max_steps: 400_000 }
+        let strategy = if s.daemon != 0 {
+            crate::parse_strategy(&s.strategy, 3000)
+        } else if s.concurrent_queries > 0 {
+            crate::parse_strategy(&s.strategy, 300)
+        } else {
+            Strategy::Random
+        };
+        ExecPlan { seed: r.next(), strategy, clock: ClockPolicy::Des, max_steps: if s.daemon != 0 { 2_000_000 } else { 400_000 } }
     }
     fn run(scn: &Scn) {
-        run(scn)
+        if scn.daemon != 0 {
+            super::c31_daemon::run(scn)
+        } else {
+            run(scn)
+        }
     }
     fn shrink(s: &Scn) -> Vec<Scn> {
         let mut out = vec![];
@@ -278,6 +382,23 @@ impl Prop for C31 {
             c.concurrent_queries -= 1;
             out.push(c);
         }
+        if s.daemon != 0 {
+            for i in 0..s.fs_faults.len() {
+                let mut c = s.clone();
+                c.fs_faults.remove(i);
+                out.push(c);
+            }
+            if s.double_hup {
+                let mut c = s.clone();
+                c.double_hup = false;
+                out.push(c);
+            }
+            if s.daemon_io.is_some() {
+                let mut c = s.clone();
+                c.daemon_io = None;
+                out.push(c);
+            }
+        }
         out
     }
     fn nontrivial(s: &Scn, _r: &ExecRecord) -> bool {
@@ -291,35 +412,36 @@ impl Prop for C31 {
         h
     }
     fn rule() -> String {
-        "one execution = one history of 2-6 steps; each step edits the configuration (add/remove nested zones of a 5-zone universe incl. a CH-class zone, change a zone's path, reorder) and zone files (valid new version, syntax error, no SOA, no NS, out-of-zone record, missing, directory, EIO after k octets, torn after k octets, unchanged), sometimes breaks the configuration file itself (invalid TOML, duplicate zone, missing), then runs the SIGHUP reload body and queries every zone of the universe (marker TXT and SOA, own class); optional short reads on every file read; in a quarter of the runs 1-3 query threads run concurrently with every reload under a seeded schedule (random / PCT) and each of their answers must come from the state before or after that reload, and from the new state once the reload has returned. Non-trivial = at least one failing file or configuration; distinct = distinct scenario".into()
+        "one execution = one history of 2-6 steps; each step edits the configuration (add/remove nested zones of a 5-zone universe incl. a CH-class zone, change a zone's path, reorder) and zone files (valid new version, syntax error, no SOA, no NS, out-of-zone record, missing, directory, EIO after k octets - possibly transient: cleared later with content and mtime unchanged -, torn after k octets, unchanged, a main file that $INCLUDEs a second file holding the marker record, and edits of that include file alone: valid / broken / removed), sometimes breaks the configuration file itself (invalid TOML, duplicate zone, missing), then reloads - by calling the SIGHUP handler body, or (a sixth of the runs) by raising SIGHUP on the whole simulated daemon, started from a configuration file or from command-line zones - and queries every zone of the universe (marker TXT and SOA, own class); optional short reads on every file read; in a quarter of the runs 1-3 query threads run concurrently with every reload under a seeded schedule (random / PCT) and each of their answers must come from the state before or after that reload, and from the new state once the reload has returned. Non-trivial = at least one failing file or configuration; distinct = distinct scenario".into()
     }
     fn assumptions() -> Vec<String> {
         vec![
             "every harness write stamps a strictly larger mtime from the simulated wall clock ('content changed but mtime did not' is the documented mtime design, not a violation)".into(),
-            "signal delivery and the signals.forever() loop are stubbed: the harness calls the handler body".into(),
+            "handler-body mode (five sixths of the runs): signal delivery and the signals.forever() loop are stubbed, the harness calls the handler body; whole-daemon mode (one sixth): try_running itself runs, only the signal source is simulated".into(),
+            "whole-daemon mode: edits happen only while the signal loop is idle; with datagram loss or failing sends injected, a query left unanswered after four attempts is no observation (counted by probe c31d_query_unanswered)".into(),
             "a torn or EIO-affected file counts as 'failed to load' only when by construction it cannot be a complete valid zone; cut points that leave a complete valid zone are not generated as failures".into(),
         ]
     }
     fn real_components() -> Vec<&'static str> {
-        vec!["src/bin/quandaryd/config.rs (load_from_path)", "src/bin/quandaryd/zones.rs (load, reload, check_mtime, load_and_validate_zone)", "src/bin/quandaryd/run.rs (reload_zones_and_keys)", "src/zone_file (fs::Parser and the record parser)", "src/db (zone, validation, catalog)", "src/server (set_catalog, query answering)"]
+        vec!["src/bin/quandaryd/config.rs (load_from_path, load_from_args, bind_provider)", "src/bin/quandaryd/zones.rs (load, reload, check_mtime, load_and_validate_zone)", "src/bin/quandaryd/run.rs (reload_zones_and_keys; in whole-daemon mode all of try_running: start-up, signal loop, SIGHUP arm, graceful shutdown)", "src/io/blocking.rs + src/thread.rs (whole-daemon mode: UDP workers, listener, pool)", "src/zone_file (fs::Parser and the record parser)", "src/db (zone, validation, catalog)", "src/server (set_catalog, query answering)"]
     }
     fn stub_components() -> Vec<&'static str> {
-        vec!["file system -> simrt::fs (in-memory, harness-stamped mtimes, EIO/torn/short-read/EINTR faults)", "signal delivery and process start-up", "sockets (queries go to handle_message)"]
+        vec!["file system -> simrt::fs (in-memory, harness-stamped mtimes, EIO/torn/short-read/EINTR faults)", "signal source (signal_hook iterator -> simrt::signal) and process start-up (clap, env_logger)", "sockets: handler-body mode sends queries to handle_message; whole-daemon mode uses simrt::net (simulated UDP/TCP)", "threads, locks, clocks -> simrt (whole-daemon mode)"]
     }
     fn engine() -> &'static str {
-        "E3 simrt-sequential (+ E1 query threads during reloads in a quarter of the runs)"
+        "E3 simrt-sequential (+ E1 query threads during reloads in a quarter of the runs; whole daemon on E1 in a sixth of the runs)"
     }
     fn expected_probes() -> Vec<&'static str> {
-        vec!["c31_reload_failed_as_a_whole", "c31_zone_kept_old_data", "c31_zone_servfail", "c31_mtime_skip", "c31_zone_removed", "c31_child_failed_parent_served", "c31_path_changed", "c31_concurrent_reload", "c31_concurrent_query_saw_old_state"]
+        vec!["c31_reload_failed_as_a_whole", "c31_zone_kept_old_data", "c31_zone_servfail", "c31_mtime_skip", "c31_zone_removed", "c31_child_failed_parent_served", "c31_path_changed", "c31_concurrent_reload", "c31_concurrent_query_saw_old_state", "c31_loaded_with_include", "c31_transient_eio_cleared", "c31d_daemon_runs", "c31d_double_sighup"]
     }
 }
 
-fn query(name: &str, qtype: u16, class: u16) -> Vec<u8> {
+pub(crate) fn query(name: &str, qtype: u16, class: u16) -> Vec<u8> {
     wire::query_full(0x3131, &wire::name(name), qtype, class, 0, None)
 }
 
 #[derive(Debug, PartialEq, Clone)]
-enum Obs {
+pub(crate) enum Obs {
     /// NOERROR with the marker text / SOA serial
     Answer(String),
     /// NXDOMAIN with the SOA serial of the zone that answered
@@ -329,13 +451,18 @@ enum Obs {
     Garbled(String),
 }
 
-fn observe(server: &daemon::Server, qname: &str, qtype: u16, class: u16) -> Obs {
+pub(crate) fn observe(server: &daemon::Server, qname: &str, qtype: u16, class: u16) -> Obs {
     let mut buf = vec![0u8; 4096];
     let n = match server.handle_message(&query(qname, qtype, class), ReceivedInfo::new(IpAddr::V4(Ipv4Addr::LOCALHOST), Transport::Udp), &mut buf) {
         Response::Single(n) => n,
         Response::None => return Obs::NoResponse,
     };
-    let m = match wire::decode(&buf[..n]) {
+    decode_obs(&buf[..n])
+}
+
+/// What a response octet string shows of the zone data it was computed from.
+pub(crate) fn decode_obs(resp: &[u8]) -> Obs {
+    let m = match wire::decode(resp) {
         Ok(m) => m,
         Err(e) => return Obs::Garbled(format!("{e:?}")),
     };
@@ -361,7 +488,7 @@ fn is_suffix(zone: &str, name: &str) -> bool {
 
 /// What queries for zone `z` of the universe must see when `served` is the served state:
 /// (marker TXT, apex SOA).
-fn expected(served: &BTreeMap<usize, Served>, z: usize) -> (Obs, Obs) {
+pub(crate) fn expected(served: &BTreeMap<usize, Served>, z: usize) -> (Obs, Obs) {
     let (zname, class) = UNIVERSE[z];
     let marker = format!("marker.{zname}");
     // the entry that must answer: longest configured suffix of the same class
@@ -372,7 +499,7 @@ fn expected(served: &BTreeMap<usize, Served>, z: usize) -> (Obs, Obs) {
     match owner {
         None => (Obs::Rcode(5), Obs::Rcode(5)),
         Some((_, Served::ServFail)) => (Obs::Rcode(2), Obs::Rcode(2)),
-        Some((k, Served::Data { version, .. })) if *k == z => (Obs::Answer(format!("{zname} v{version}")), Obs::Answer(format!("serial {version}"))),
+        Some((k, Served::Data { version, marker, .. })) if *k == z => (Obs::Answer(format!("{zname} v{marker}")), Obs::Answer(format!("serial {version}"))),
         Some((k, Served::Data { version, .. })) => {
             if served.get(&z).is_none() && UNIVERSE[*k].0 != zname {
                 simrt::probe("c31_child_failed_parent_served");
@@ -383,11 +510,12 @@ fn expected(served: &BTreeMap<usize, Served>, z: usize) -> (Obs, Obs) {
 }
 
 /// The reference model: the served state after a successful reload of `step`'s configuration.
-fn next_model(before: &BTreeMap<usize, Served>, step: &Step, files: &BTreeMap<(usize, usize), FileState>) -> BTreeMap<usize, Served> {
+pub(crate) fn next_model(before: &BTreeMap<usize, Served>, step: &Step, files: &Files) -> BTreeMap<usize, Served> {
     let mut served = BTreeMap::new();
     for (z, pv) in &step.zones {
         let prev = before.get(z).cloned();
-        let file = files.get(&(*z, *pv));
+        let file = files.main.get(&(*z, *pv));
+        let inc = files.inc.get(&(*z, *pv));
         let keep = |prev: &Option<Served>| prev.clone().unwrap_or(Served::ServFail);
         let new = match file {
             None => keep(&prev),
@@ -399,15 +527,20 @@ fn next_model(before: &BTreeMap<usize, Served>, step: &Step, files: &BTreeMap<(u
                     simrt::probe("c31_mtime_skip");
                     keep(&prev)
                 } else {
-                    match loads(&f.kind) {
-                        Some(v) => Served::Data { version: v, path: *pv, mtime_s: f.mtime_s },
+                    match loads(&f.kind, inc) {
+                        Some((v, m)) => {
+                            if m != v {
+                                simrt::probe("c31_loaded_with_include");
+                            }
+                            Served::Data { version: v, marker: m, path: *pv, mtime_s: f.mtime_s }
+                        }
                         None => keep(&prev),
                     }
                 }
             }
         };
         if let (Some(Served::Data { version, .. }), Served::Data { version: v2, .. }) = (&prev, &new) {
-            if version == v2 && file.map(|f| loads(&f.kind).is_none()).unwrap_or(true) {
+            if version == v2 && file.map(|f| loads(&f.kind, inc).is_none()).unwrap_or(true) {
                 simrt::probe("c31_zone_kept_old_data");
             }
         }
@@ -424,6 +557,99 @@ fn next_model(before: &BTreeMap<usize, Served>, step: &Step, files: &BTreeMap<(u
     served
 }
 
+/// Applies the file edits of `step` to the simulated file system (mtime = `now_s`).
+pub(crate) fn apply_edits(step: &Step, now_s: u64, files: &mut Files) {
+    use simrt::fs;
+    for e in &step.edits {
+        let key = (e.zone, e.path);
+        // edits that leave the main file alone
+        match &e.kind {
+            FileKind::IncValid(iv) => {
+                fs::write(inc_path_of(e.zone, e.path), &zone_text(e.zone, &e.kind).unwrap());
+                files.inc.insert(key, Some(*iv));
+                continue;
+            }
+            FileKind::IncBroken => {
+                fs::write(inc_path_of(e.zone, e.path), &zone_text(e.zone, &e.kind).unwrap());
+                files.inc.insert(key, None);
+                continue;
+            }
+            FileKind::IncMissing => {
+                fs::remove(inc_path_of(e.zone, e.path));
+                files.inc.remove(&key);
+                simrt::count_fault(Fault::FsEnoent);
+                continue;
+            }
+            FileKind::EioCleared => {
+                if let Some(f) = files.main.get_mut(&key) {
+                    if let FileKind::Eio(v, _) = f.kind {
+                        fs::set_eio(path_of(e.zone, e.path), None);
+                        f.kind = FileKind::Valid(v);
+                        simrt::probe("c31_transient_eio_cleared");
+                    }
+                }
+                continue;
+            }
+            _ => {}
+        }
+        let p = path_of(e.zone, e.path);
+        fs::remove(&p);
+        match &e.kind {
+            FileKind::Missing => {
+                simrt::count_fault(Fault::FsEnoent);
+            }
+            FileKind::Dir => {
+                fs::mkdir(&p);
+                simrt::count_fault(Fault::FsEisdir);
+            }
+            k => {
+                fs::write(&p, &zone_text(e.zone, k).unwrap());
+                if let FileKind::Eio(_, at) = k {
+                    // the error strikes at or before the end of the file: the load always fails
+                    let len = zone_text(e.zone, k).unwrap().len();
+                    fs::set_eio(&p, Some(*at % (len + 1)));
+                    simrt::count_fault(Fault::FsEioAt);
+                }
+                if matches!(k, FileKind::Torn(..)) {
+                    simrt::count_fault(Fault::FsTorn);
+                }
+            }
+        }
+        files.main.insert(key, FileState { kind: e.kind.clone(), mtime_s: now_s });
+    }
+}
+
+/// Writes (or, for configuration fault 3, removes) the configuration file of `step`;
+/// `preamble` holds the top-level keys and is followed by `tail` tables.
+pub(crate) fn write_config(step: &Step, cfg_path: &std::path::Path, preamble: &str, tail: &str) {
+    use simrt::fs;
+    let mut toml = String::from(preamble);
+    if step.zones.is_empty() {
+        toml.push_str("zones = []\n");
+    }
+    for (z, pv) in &step.zones {
+        let (name, class) = UNIVERSE[*z];
+        toml.push_str(&format!("[[zones]]\nname = \"{name}\"\nclass = \"{}\"\npath = \"{}\"\n", class_str(class), rel_path_of(*z, *pv)));
+    }
+    match step.config_fault {
+        1 => toml.push_str("[[zones\nname = \n"),
+        2 => {
+            let (z, pv) = step.zones.first().copied().unwrap_or((0, 0));
+            let (name, class) = UNIVERSE[z];
+            for _ in 0..(if step.zones.is_empty() { 2 } else { 1 }) {
+                toml.push_str(&format!("[[zones]]\nname = \"{name}\"\nclass = \"{}\"\npath = \"{}\"\n", class_str(class), rel_path_of(z, pv)));
+            }
+        }
+        _ => {}
+    }
+    toml.push_str(tail);
+    if step.config_fault == 3 {
+        fs::remove(cfg_path);
+    } else {
+        fs::write(cfg_path, toml.as_bytes());
+    }
+}
+
 fn run(scn: &Scn) {
     let mut faults = FaultCfg::none();
     for (k, rate) in &scn.fs_faults {
@@ -437,65 +663,15 @@ fn run(scn: &Scn) {
     fs::mkdir("/etc/quandary/alt");
     let cfg_path = std::path::Path::new("/etc/quandary/config.toml");
 
-    let mut files: BTreeMap<(usize, usize), FileState> = BTreeMap::new();
+    let mut files = Files::default();
     let mut served: BTreeMap<usize, Served> = BTreeMap::new();
     let mut state: Option<(Arc<daemon::Server>, Arc<zones::Catalog>)> = None;
 
     for (si, step) in scn.steps.iter().enumerate() {
         simrt::advance(Duration::from_secs(step.advance_s.max(1)));
         let now_s = simrt::time::wall_secs();
-        // --- apply the edits -------------------------------------------------------
-        for e in &step.edits {
-            let p = path_of(e.zone, e.path);
-            fs::remove(&p);
-            match &e.kind {
-                FileKind::Missing => {
-                    simrt::count_fault(Fault::FsEnoent);
-                }
-                FileKind::Dir => {
-                    fs::mkdir(&p);
-                    simrt::count_fault(Fault::FsEisdir);
-                }
-                k => {
-                    fs::write(&p, &zone_text(e.zone, k).unwrap());
-                    if let FileKind::Eio(_, at) = k {
-                        // the error strikes at or before the end of the file: the load always fails
-                        let len = zone_text(e.zone, k).unwrap().len();
-                        fs::set_eio(&p, Some(*at % (len + 1)));
-                        simrt::count_fault(Fault::FsEioAt);
-                    }
-                    if matches!(k, FileKind::Torn(..)) {
-                        simrt::count_fault(Fault::FsTorn);
-                    }
-                }
-            }
-            files.insert((e.zone, e.path), FileState { kind: e.kind.clone(), mtime_s: now_s });
-        }
-        // --- write the configuration --------------------------------------------------
-        let mut toml = String::new();
-        if step.zones.is_empty() {
-            toml.push_str("zones = []\n");
-        }
-        for (z, pv) in &step.zones {
-            let (name, class) = UNIVERSE[*z];
-            toml.push_str(&format!("[[zones]]\nname = \"{name}\"\nclass = \"{}\"\npath = \"{}\"\n", class_str(class), rel_path_of(*z, *pv)));
-        }
-        match step.config_fault {
-            1 => toml.push_str("[[zones\nname = \n"),
-            2 => {
-                let (z, pv) = step.zones.first().copied().unwrap_or((0, 0));
-                let (name, class) = UNIVERSE[z];
-                for _ in 0..(if step.zones.is_empty() { 2 } else { 1 }) {
-                    toml.push_str(&format!("[[zones]]\nname = \"{name}\"\nclass = \"{}\"\npath = \"{}\"\n", class_str(class), rel_path_of(z, pv)));
-                }
-            }
-            _ => {}
-        }
-        if step.config_fault == 3 {
-            fs::remove(cfg_path);
-        } else {
-            fs::write(cfg_path, toml.as_bytes());
-        }
+        apply_edits(step, now_s, &mut files);
+        write_config(step, cfg_path, "", "");
         // --- reference model of the state after this step (the outcome depends only on the
         //     configuration and the files, both known before the reload runs) ------------------
         let expect_ok = step.config_fault == 0;
